@@ -54,6 +54,7 @@ GPG_STATES = [
     ("hdr_upper", "invalid"),
     ("hdr_odd", "invalid"),
     ("hdr_empty", "invalid"),
+    ("hdr_hex_whitespace", "invalid"),
     ("hugehdr_garbage_sig", "invalid"),
     ("alg_sha512_declared_and_used", "invalid"),
     ("alg_sha1_declared_and_used", "invalid"),
@@ -211,6 +212,12 @@ def make_gpg(state, key, data, rng):
         if hh == h.hex():
             return dict(good, other_headers="AB")
         return dict(good, other_headers=hh)
+    if state == "hdr_hex_whitespace":
+        # the genuine header's hex with white space a lenient hex decoder skips (one trailing line feed, inner blanks, ...): not a
+        # hex string; the entry is malformed although a lenient decoder recovers the very bytes that were signed
+        hx = h.hex()
+        return dict(good, other_headers=rng.choice([hx + "\n", hx + "\n", hx + " ", " " + hx, hx[:8] + " " + hx[8:], hx + "\r\n", hx[:2] + "\t" + hx[2:],
+                                                     hx + "\n\n", "\n" + hx, hx + "\x0b", hx + "\x0c", hx + "\u2028", hx + "\x00"]))
     if state == "hdr_odd":
         return dict(good, other_headers=h.hex()[:-1])
     if state == "hdr_empty":
